@@ -1,12 +1,12 @@
 package checks
 
 import (
-	"io"
 	"bufio"
 	"crypto/sha1"
 	"encoding/hex"
 	"encoding/json"
 	"fmt"
+	"io"
 	"os"
 	"os/exec"
 	"path/filepath"
@@ -67,7 +67,7 @@ var c17SentinelFiles = map[string]string{ // path relative to the scratch root -
 	"dir/cwd/" + c17Long63 + "/x.gr":  "SENT_LONG63",
 	"dir/cwd/" + c17Long64 + "/x.gr":  "SENT_LONG64",
 	"dir/cwd/" + c17Long300 + "/x.gr": "SENT_LONG200",
-	"dir/cwd/\u0141/x.gr":            "SENT_LSTROKE",
+	"dir/cwd/\u0141/x.gr":             "SENT_LSTROKE",
 }
 
 var (
@@ -564,6 +564,7 @@ func runC17(c *core.Ctx) {
 	type job struct {
 		cfg, mode, order string
 		shard, of, l     int
+		reinit           bool // the child calls extensions.Init again with every other configuration before the calls
 	}
 	var jobs []job
 	for _, cfg := range []string{"restricted", "emptyonly", "disabled"} {
@@ -576,12 +577,13 @@ func runC17(c *core.Ctx) {
 			if cfg != "restricted" {
 				l = 3
 			}
-			jobs = append(jobs, job{cfg, "snap", "fwd", i, n, l})
+			jobs = append(jobs, job{cfg, "snap", "fwd", i, n, l, false})
 		}
-		jobs = append(jobs, job{cfg, "trace", "fwd", 0, 1, traceLen})
+		jobs = append(jobs, job{cfg, "trace", "fwd", 0, 1, traceLen, false})
+		jobs = append(jobs, job{cfg, "snap", "fwd", 0, 1, 3, true}) // the verdicts do not depend on later Init calls
 	}
-	jobs = append(jobs, job{"restricted", "snap", "rev", 0, 1, 3}) // verdict independent of enumeration order / pre-existing targets
-	jobs = append(jobs, job{"unrestricted", "snap", "fwd", 0, 1, 2}) // positive control: the oracle must flag escapes here
+	jobs = append(jobs, job{"restricted", "snap", "rev", 0, 1, 3, false})   // verdict independent of enumeration order / pre-existing targets
+	jobs = append(jobs, job{"unrestricted", "snap", "fwd", 0, 1, 2, false}) // positive control: the oracle must flag escapes here
 	type result struct {
 		j    job
 		part core.Part
@@ -612,6 +614,9 @@ func runC17(c *core.Ctx) {
 				cmd = exec.Command(self, args...)
 			}
 			cmd.Env = append(os.Environ(), "VERIF_IOCFG="+j.cfg, "GOMAXPROCS=2")
+			if j.reinit {
+				cmd.Env = append(cmd.Env, "VERIF_IOCFG_REINIT=1")
+			}
 			outb, err := cmd.Output()
 			res := result{j: j}
 			if err != nil {
@@ -710,15 +715,15 @@ func runC17(c *core.Ctx) {
 	defer func() {
 		c.P.Bound += fmt.Sprintf("; plus multi-byte and 63..5000-byte names with path syntax appended; the grol command itself (%d runs: file / shebang / stdin / -c modes x script inside or outside the current directory x load and save of names that exist next to the script or above it)", ncli)
 	}()
-	c.P.Bound = fmt.Sprintf("every name of <=%d symbols over the 13-symbol alphabet {a Z 0 _ g r . / \\ NUL space ~ 0xFF}, bare and with .gr appended, x save/load/image.save in restricted mode (<=3 symbols in empty-only and disabled mode); reverse enumeration order; syscall trace (strace) layer for names of <=%d symbols per configuration; unrestricted mode as positive control", maxLen, traceLen)
+	c.P.Bound = fmt.Sprintf("every name of <=%d symbols over the 13-symbol alphabet {a Z 0 _ g r . / \\ NUL space ~ 0xFF}, bare and with .gr appended, x save/load/image.save in restricted mode (<=3 symbols in empty-only and disabled mode); reverse enumeration order; the <=3-symbol names again in children that call extensions.Init a second time with each other configuration; syscall trace (strace) layer for names of <=%d symbols per configuration; unrestricted mode as positive control", maxLen, traceLen)
 }
 
 func init() {
 	core.RegisterChild("C17-child", c17Child)
 	core.Register(&core.Check{
-		ID:    "C17",
-		Level: "exploration",
-		Rule: "file names enumerated exhaustively (every string of <=4 (thorough 5) symbols over {a Z 0 _ g r . / \\ NUL space ~ 0xFF}, bare and with .gr) x {save(name), load(name), image.new+image.save(name)} x configurations {restricted, empty-only, load/save disabled}, one child process per configuration and shard, each in its own scratch tree with sentinel files (each defining a recognisable binding) at every location a short name can spell (parent and root directories, sub-directories, names without the suffix, other suffixes). Oracle: after every call the snapshot (names, sizes, content hashes) of the whole scratch tree differs from the previous one only by the one file the reference verdict allows (X.gr in cwd with X alphanumeric/underscore, .gr in empty-only mode, grol.png for image.save); a call that returned an error changed nothing; a rejected name is rejected and an accepted one accepted exactly per the reference verdict; after load no sentinel binding from outside the allowed file is defined; exec/run (and save/load when disabled) are unbound; second layer: the child runs under strace -f and every path opened for writing/creation/rename/unlink and every non-system path opened for reading after a start marker lies in cwd and has the allowed form. Unrestricted mode is run as positive control (the oracle must flag its escapes). Non-trivial = every (name, configuration).",
+		ID:          "C17",
+		Level:       "exploration",
+		Rule:        "file names enumerated exhaustively (every string of <=4 (thorough 5) symbols over {a Z 0 _ g r . / \\ NUL space ~ 0xFF}, bare and with .gr) x {save(name), load(name), image.new+image.save(name)} x configurations {restricted, empty-only, load/save disabled}, one child process per configuration and shard, each in its own scratch tree with sentinel files (each defining a recognisable binding) at every location a short name can spell (parent and root directories, sub-directories, names without the suffix, other suffixes). Oracle: after every call the snapshot (names, sizes, content hashes) of the whole scratch tree differs from the previous one only by the one file the reference verdict allows (X.gr in cwd with X alphanumeric/underscore, .gr in empty-only mode, grol.png for image.save); a call that returned an error changed nothing; a rejected name is rejected and an accepted one accepted exactly per the reference verdict; after load no sentinel binding from outside the allowed file is defined; exec/run (and save/load when disabled) are unbound; second layer: the child runs under strace -f and every path opened for writing/creation/rename/unlink and every non-system path opened for reading after a start marker lies in cwd and has the allowed form. Unrestricted mode is run as positive control (the oracle must flag its escapes). Non-trivial = every (name, configuration).",
 		Assume:      []string{"strace is available (if not the second layer is skipped and noted)"},
 		QuickCap:    100 * time.Second,
 		ThoroughCap: 20 * time.Minute,
